@@ -32,7 +32,7 @@ world related to THE successor `s'` of `s` by the step of `SC.step` of the body 
 that is `SC.enabled`) or by the spurious return of its `nWait` (`SC.spurious`); in particular that step does not stop
 with a race verdict (`RC2` contains `s'.verdict = none`). -/
 theorem step_clock2 (hwf : WF3 w.prog) (hRC : RC2 w s) (hact : w.tid < w.ctl.length)
-    (hactive : w.ths.isActive = true) (hok : resumeOk w = true) (hst : staleOk w = true)
+    (hactive : w.ths.isActive = true) (hok : resumeOk w = true)
     (h : w.stepActive = .ok w') : SimC2 w s w' := by
   have hsim : Sim2 w (data2 s) w' := (step_sim2 hwf.1 hRC.r hact hok h).1
   have fin3 : QuietOut2 w s w' ∨ RealOut2 w s w' ∨ SpurOut2 w s w' → SimC2 w s w' := by
@@ -73,7 +73,7 @@ theorem step_clock2 (hwf : WF3 w.prog) (hRC : RC2 w s) (hact : w.tid < w.ctl.len
     case tryRecv q => exact fin (clk_tryRecv2 hRC hact hop hok' h)
     case dropRx q => exact absurd hop' (fun hh => hwf.noDrop hh)
     case nWait n => exact fin3 (clk_nWait2 hRC hact hop hok' h)
-    case nNotify n => exact fin (clk_nNotify2 hRC hact hop hok' hst h)
+    case nNotify n => exact fin (clk_nNotify2 hRC hact hop hok' h)
     case park => exact fin (clk_park2 hRC hact hop hok h)
     case unpark u => exact fin (.inr (clk_unpark2 hRC hact hop h))
     case cvWait v m => exact fin (clk_cvWait2 hRC hact hactive hop hok'.1 hok'.2 hok h)
